@@ -344,12 +344,21 @@ class C12(core.Property):
         "stable_leader_progress (bounded liveness, Multi-Paxos / Flexible Paxos)": "judged: in a quiet fault-free stable-leader run every slot the leader replicated is committed on it and its "
             "submit() future resolved with its own command (mpaxos|fpaxos/progress/…).  Proved for all states and all stable action sequences, from the instant the leader has assigned its slots: "
             "MP.stable_leader_commits_any_ack_order, MP.stable_leader_resolves_future (acknowledgements of different slots in any order, duplicates, other nodes' handlers interleaved).  MP.new_leader_commits_parked_commands composes them with "
-            "_become_leader (the i-th parked command gets slot len + i + 1 with one acknowledgement and its future; MP.promise_quorum_becomes_leader / MP.start_alone_becomes_leader: the two call sites).  Not proved: "
-            "the end-to-end form from `init` over the submit / start / promise steps for arbitrary command lists (MP.stable_leader_progress_full is stated; its instance n = 3, two commands is an example by decide).  Not covered, "
+            "_become_leader (the i-th parked command gets slot len + i + 1 with one acknowledgement and its future; MP.promise_quorum_becomes_leader / MP.start_alone_becomes_leader: the two call sites).  MP.stable_leader_progress "
+            "(= MP.stable_leader_progress_full) is the end-to-end form from `init`: commands cs parked on p, its only start(), the q1 - 1 promises it needs, then any stable action sequence that delivers "
+            "every slot's acknowledgements (any order) => commit_index = |cs| on p and the i-th future resolved with (i + 1, cs[i]); MP.progress_judge_silent: Spec.judgeProgress accepts the model's own "
+            "transcript (obsRun, committed commands, futures) of every such run with distinct commands.  The schedule shape (submits, start, promises, stable actions with the acknowledgement counts) is "
+            "the hypothesis, not a decidable predicate over arbitrary schedules (late duplicate promises, which re-replicate, are outside the proved shape; the judge covers them).  Not covered, "
             "because false of the pinned tree: a command submitted to an *established* leader is appended but never replicated (submit() returns no events), a command submitted to a non-leader is parked; "
             "followers learn the commit index only from later Accepts / heartbeats (MultiPaxosNode stops heartbeating after its first own tick) — 'applied at every node' is not judged",
         "single_proposer_decides (liveness)": "not stated: bounded-progress form needs an engine-time model; the fault-free single-proposer schedules in the paxos family all decide (checked by the judge only for safety)",
-        "paxos current variant": "stepCur is exact on the two corpus witnesses but approximates duplicate Accept/Accepted messages of the pinned tree (at-most-once slots)",
+        "paxos current variant": "stepCur (the pinned tree before fixes/C12-paxos-phase2-once.diff; /repo HEAD is the repaired code) keeps one network slot per (kind, ballot, peer). It differs from the "
+                                 "pinned tree in exactly two situations (lean/HappyProofs/C12/PxCurExact.lean): A — _start_phase2(b) runs again while an Accept(b) to a peer is still undelivered (the slot then holds "
+                                 "only the newer message / value; on the pinned tree both are in flight); B — an acceptor answers a second Accept(b) while its first Accepted(b) is undelivered (one flag, so one "
+                                 "acknowledgement is counted where the pinned tree counts two). Everything else is mirrored exactly (Px.stepCur_eq_step: outside _handle_promise / _handle_accepted it is the repaired "
+                                 "function). A schedule is replayed exactly iff it never delivers from a slot / flag made ambiguous by A / B; Px.curExact decides this, and both witnesses of the refutations satisfy it "
+                                 "(witnessAgreement_exact, witnessNone_exact; witnessAgreement does hit A, the overwritten Accepts are never delivered). Making the slots multisets would change the state type under "
+                                 "all repaired-variant invariants (Net1/Net2) and was not done",
     }
 
     # ------------------------------------------------------------------ dispatch
@@ -1730,6 +1739,9 @@ THEOREMS = [
     "HappyModel.C12.future_resolves_decided",
     "HappyModel.C12.paxos_agreement_current_false",
     "HappyModel.C12.retry_decides_none",
+    "HappyModel.C12.witnessAgreement_exact",
+    "HappyModel.C12.witnessNone_exact",
+    "HappyModel.C12.Px.stepCur_eq_step",
     "HappyModel.C12.fencing_strictly_increasing",
     "HappyModel.C12.MP.slot_agreement_current_false",
     "HappyModel.C12.MP.flexible_slot_agreement_current_false",
@@ -1752,6 +1764,8 @@ THEOREMS = [
     "HappyModel.C12.MP.stable_leader_commits_any_ack_order",
     "HappyModel.C12.MP.stable_leader_resolves_future",
     "HappyModel.C12.MP.new_leader_commits_parked_commands",
+    "HappyModel.C12.MP.stable_leader_progress",
+    "HappyModel.C12.MP.progress_judge_silent",
     "HappyModel.C12.MP.stuck_stable_leader_violates_spec",
     "HappyModel.C12.MP.pending_future_violates_spec",
     "HappyModel.C12.MP.promise_clears_leadership",
